@@ -87,6 +87,7 @@ namespace
             else if (k < 5)
             {
                 gn.kind = "timed";
+                gn.hasPeriodic = true;  // unknowable to the model within 1 us of its deadline and while the clock crosses it during an op
                 n["duration"] = g.pick(std::vector<double>{0.0, 0.001, 0.01, 0.1, 1.0, 30.0});
             }
             else if (k < 6)
@@ -112,6 +113,7 @@ namespace
             else if (!haveConv)
             {
                 gn.kind = "conv";
+                gn.hasPeriodic = true;  // unknowable while a report() of another thread is in flight / right at the threshold
                 haveConv = true;
                 n["window"] = (long)g.range(1, 5);
                 n["epsilon"] = g.pick(std::vector<double>{0.01, 0.1, 0.5});
@@ -140,8 +142,28 @@ namespace
                 if (nodes[(size_t)b].hasIter && nodes[(size_t)a].hasPeriodic)
                     std::swap(a, b);
                 if (nodes[(size_t)b].hasIter && nodes[(size_t)a].hasPeriodic)
+                {
+                    // both operands hold an iteration counter AND a value the model cannot know: any stateless node will
+                    // do as the second operand (the first one itself would not: and(x, x) evaluates x twice iff x is true)
+                    b = -1;
+                    for (size_t j = 0; j < nodes.size() && b < 0; j++)
+                        if (!nodes[j].hasIter)
+                            b = (int)j;
+                }
+                bool asCopy = b < 0;
+                if (asCopy)
                     b = a;
                 gn.kind = g.chance(0.5) ? "or" : "and";
+                if (asCopy)
+                {
+                    gn = nodes[(size_t)a];
+                    gn.kind = "copy";
+                    n["a"] = a;
+                    n["kind"] = gn.kind;
+                    nodes.push_back(gn);
+                    nj.push(n);
+                    continue;
+                }
                 gn.hasIter = nodes[(size_t)a].hasIter || nodes[(size_t)b].hasIter;
                 gn.hasPeriodic = nodes[(size_t)a].hasPeriodic || nodes[(size_t)b].hasPeriodic;
                 n["a"] = a;
